@@ -764,6 +764,31 @@ fn c14_scenarios(tier: Tier) -> Vec<Scenario> {
             Step::Settle,
         ],
     });
+    // two notifications being handled at once: the first waits for a slow tower X; the second gets another key's signature
+    // from tower Y, which is flagged; the first then goes on to Y - with the status it read before Y was flagged? (towers
+    // are visited in an order the harness does not control: both assignments of the roles, one of them is the telling one)
+    for (x, y) in [(0usize, 1usize), (1, 0)] {
+        v.push(Scenario {
+            name: format!("two-notifications-at-once:tower-{y}-flagged-while-the-first-waits-for-tower-{x}"),
+            towers: 2,
+            opts: RetryOpts::default(),
+            steps: vec![
+                Step::Register(0),
+                Step::Register(1),
+                Step::Script(x, add.clone(), vec![Reply::Hold]),
+                Step::RevokeNoWait(1),
+                Step::WaitInFlight(x),
+                Step::Default(y, add.clone(), Reply::WrongKey),
+                Step::Revoke(2),
+                Step::Settle,
+                Step::Default(y, add.clone(), Reply::Accept),
+                Step::Release(x),
+                Step::Settle,
+                Step::Revoke(3),
+                Step::Settle,
+            ],
+        });
+    }
     // a tower proven misbehaving stays so, also across a (valid) renewal of the subscription
     v.push(Scenario {
         name: "misbehaving-then-renewal".into(),
